@@ -701,7 +701,11 @@ def run_redesign(case, drv):
                                     b2f(e['con_out'])], abs_=1e-9, uid=r['uid'])
             amps2 = [r for r in post2[i] if r['kind'] == 'edfa']
             skip = False
-            for r, om in zip(amps2, a2['outs']):
+            # round 1 of the model stands in for the first design: where ITS rounding of a power offset / VOA sat on a tie
+            # (distance of the rounded quotient to the boundary < 1e-9) the two first designs may legitimately have fallen on
+            # different sides, and everything exported from there on differs by a rounding step
+            m1 = [b2f(x['o']['margin']) for x in a1['outs']]
+            for t, (r, om) in enumerate(zip(amps2, a2['outs'])):
                 o = om['o']
                 if skip:
                     res.ill += 1
@@ -710,8 +714,9 @@ def run_redesign(case, drv):
                 mod = [b2f(o['gain']), b2f(o['dp_int']), b2f(o['out_voa']), b2f(o['in_voa'])]
                 # the exported gain is rounded to 6 digits on both sides; rounding ties are class D
                 if not close_list(impl, mod, 1e-9, 2e-6):
-                    if b2f(o['margin']) < 1e-6:
+                    if b2f(o['margin']) < 1e-6 or min(m1[:t + 1], default=1.0) < 1e-9:
                         res.ill += 1
+                        res.stats['round1_rounding_tie_not_comparable'] += 1
                         skip = True
                         continue
                 res.cmp_floats(f'{tag}.amp(effective_gain,_delta_p,out_voa,in_voa)', impl, mod, abs_=2e-6, uid=r['uid'])
